@@ -38,6 +38,9 @@ structure Loop where
   refused : Bool := false
   pretrees : List (String × Bool × CTree) := []
   notes : Option (List Note) := none
+  allocs : Option (List (Nat × Nat)) := none
+  fileFresh : Bool := false   -- a `file` line was seen after the last commit
+  callsReplayed : Nat := 0
   layerC : Nat := 0
   layerCSteps : Nat := 0
   /-- the bucket trees of the file as last decoded; `viewFresh` while no commit has happened since -/
@@ -51,8 +54,18 @@ structure Loop where
   pagesPredicted : Nat := 0
   commitsSinceView : Nat := 0
   protoCompared : Nat := 0
+  extChecked : Nat := 0
+  reusedRuns : Nat := 0
+  placedExact : Nat := 0
+  placeUndec : Nat := 0
+  plateauSegs : Nat := 0
+  maxMark : Nat := 0
   /-- a fault was armed for the next commit (C11) -/
   faultArmed : Bool := false
+  faultErrno : Nat := 0
+  lastCommit : String := ""
+  faultsResolved : Nat := 0
+  protoInits : Nat := 0
   /-- after a commit that returned an I/O error: the state before it (the model holds the state after it) -/
   ambiguous : Option DBS := none
 
@@ -60,16 +73,27 @@ def Loop.fail (l : Loop) (kind msg : String) : IO Loop := do
   IO.println s!"RESULT {l.cur} {kind} line={l.lineNo} {msg}"
   return { l with failed := true, nBad := l.nBad + 1 }
 
-def Loop.endHist (l : Loop) : IO Unit := do
-  if l.cur != "" then
-    match l.proto with
-    | some p =>
-      IO.println s!"PROTO {l.cur} commits-checked={p.checked} maxNonFree={p.maxNonFree} maxGrowth={p.maxReq} numPages={p.sys.numPages} invariant=ok"
-      pure ()
-    | none => pure ()
-    if l.protoCompared > 0 then IO.println s!"STAT proto_commits_compared={l.protoCompared}"
+/-- the free-list protocol state is dropped (close / reopen / end of history): fold its counters into the
+history's and check the plateau bound over the stretch it covered -/
+def Loop.retireProto (l : Loop) : IO Loop := do
+  match l.proto with
+  | none => return l
+  | some p =>
+    IO.println s!"PROTO {l.cur} commits-checked={p.checked} maxNonFree={p.maxNonFree} maxRun={p.maxReq} numPages0={p.numPages0} numPages={p.sys.numPages} extensions={p.extensions} reused={p.reused} placed={p.placed} undecided={p.placeUndecided} burned={p.burnedCommits} invariant=ok"
+    let l := { l with proto := none, extChecked := l.extChecked + p.extensions, reusedRuns := l.reusedRuns + p.reused,
+                      placedExact := l.placedExact + p.placed, callsReplayed := l.callsReplayed + p.callsReplayed, placeUndec := l.placeUndec + p.placeUndecided,
+                      plateauSegs := l.plateauSegs + (if p.checked > 0 then 1 else 0), maxMark := max l.maxMark p.sys.numPages }
+    if !p.plateauOk && !l.failed then
+      l.fail "PLATEAUDIFF" s!"the page mark reached {p.sys.numPages} (from {p.numPages0}) although at most {p.maxNonFree} pages were ever non-free and no run longer than {p.maxReq} was requested: bound {p.maxReq * (p.maxNonFree + 2) + 1}"
+    else return l
+
+def Loop.endHist (l : Loop) : IO Loop := do
+  if l.cur == "" then return l else
+    let l ← l.retireProto
+    if l.protoCompared > 0 || l.protoInits > 0 then IO.println s!"STAT proto_commits_compared={l.protoCompared} extension_runs_checked_against_free_list={l.extChecked} runs_placed_on_released_pages={l.reusedRuns} commits_whose_placement_first_fit_reproduces={l.placedExact} commits_placement_undecided={l.placeUndec} plateau_stretches_checked={l.plateauSegs} allocation_calls_replayed={l.callsReplayed} free_list_vs_file_checks_at_start={l.protoInits}"
     if l.layerC > 0 || l.overlays > 0 || l.reenc > 0 then IO.println s!"STAT layerc_buckets_compared={l.layerC} layerc_rebalance_steps_replayed={l.layerCSteps} overlay_trees_predicted={l.overlays} pages_reencoded={l.reenc} commits_whose_freed_pages_were_predicted={l.pagesPredicted}"
     if !l.failed || l.refused then IO.println s!"RESULT {l.cur} OK ops={l.nOps}"
+    return l
 
 /-- one transcript line -/
 def stepLine (l : Loop) (line : String) : IO Loop := do
@@ -86,9 +110,10 @@ def stepLine (l : Loop) (line : String) : IO Loop := do
   let f := lhs.splitOn " "
   let op := f.headD ""
   if op == "hist" then
-    l.endHist
+    let l ← l.endHist
     return { l with st := {}, cur := f.getD 1 "?", nOps := 0, failed := false, nHist := l.nHist + 1,
-                    proto := none, lastFile := none, commitsSinceFile := 0, protoOff := false, refused := false, pretrees := [], notes := none, layerC := 0, layerCSteps := 0, lastView := none, viewFresh := false, overlays := 0, reenc := 0, preView := none, lastTreeReach := [], pagesPredicted := 0, commitsSinceView := 0, protoCompared := 0 }
+                    proto := none, lastFile := none, commitsSinceFile := 0, protoOff := false, refused := false, pretrees := [], notes := none, layerC := 0, layerCSteps := 0, lastView := none, viewFresh := false, overlays := 0, reenc := 0, preView := none, lastTreeReach := [], pagesPredicted := 0, commitsSinceView := 0, protoCompared := 0,
+                    callsReplayed := 0, allocs := none, fileFresh := false, protoInits := 0, faultsResolved := 0, lastCommit := "", extChecked := 0, reusedRuns := 0, placedExact := 0, placeUndec := 0, plateauSegs := 0, maxMark := 0 }
   if l.failed then return l
   let r := stepOp l.st f
   let l := { l with cnt := bump l.cnt (op ++ "/" ++ outcomeClass got) }
@@ -103,18 +128,18 @@ def stepLine (l : Loop) (line : String) : IO Loop := do
     if !l.faultArmed then
       return ← l.fail "SPECDIFF" s!"op=[{lhs}] expected=[ok] got=[{got}] (no fault was injected)"
     else
-      return { l with st := r.st, nOps := l.nOps + 1, ambiguous := some l.st.committed, faultArmed := false,
+      return { l with st := r.st, nOps := l.nOps + 1, ambiguous := some l.st.committed, faultArmed := false, lastCommit := got,
                       commitsSinceFile := l.commitsSinceFile + 2, proto := none, protoOff := true }
   if op == "dump" then
     match l.ambiguous with
     | some pre =>
       let post := dumpBucket l.st.committed [] true
       let preS := dumpBucket pre [] true
-      if got == post then return { l with ambiguous := none, nOps := l.nOps + 1 }
+      if got == post then return { l with ambiguous := none, nOps := l.nOps + 1, protoOff := false, commitsSinceFile := 0, fileFresh := false }
       else if got == preS then
         let t := (f.getD 1 "0").toNat!
         let st' := { l.st with committed := pre, txs := l.st.txs.map (fun x => if x.id == t then { x with db := pre } else x) }
-        return { l with st := st', ambiguous := none, nOps := l.nOps + 1 }
+        return { l with st := st', ambiguous := none, nOps := l.nOps + 1, protoOff := false, commitsSinceFile := 0, fileFresh := false }
       else
         return ← l.fail "SPECDIFF" s!"op=[{lhs}] expected=[{preS} | {post}] got=[{got}] (after a commit that reported an I/O error)"
     | none => pure ()
@@ -147,17 +172,35 @@ def stepLine (l : Loop) (line : String) : IO Loop := do
         | _, _ => pure ()
     | _, _, _ => pure ()
     return l
-  | "notes" => return { l with notes := some (parseNotes got) }
-  | "fault" => return { l with faultArmed := got == "ok" }
+  | "notes" => return { l with notes := some (parseNotes got), allocs := some (parseAllocs got) }
+  | "fault" => return { l with faultArmed := got == "ok", faultErrno := (f.getD 3 "0").toNat! }
+  | "fired" =>
+    -- C11: what the injected fault did during the last commit.  An error that was delivered to a write or
+    -- fsync of the commit must come back from `commit`; a short write without error, or a fault that
+    -- never fired, must not make it fail
+    if got == "err" && l.lastCommit == "ok" then
+      return ← l.fail "FAULTDIFF" s!"op=[{lhs}] an I/O error (errno {l.faultErrno}) was returned to a write or fsync of the commit, but commit returned ok"
+    else if (got == "none" || got == "short") && l.lastCommit == "err:Io" then
+      return ← l.fail "FAULTDIFF" s!"op=[{lhs}] commit reported an I/O error although the shim returned none (fault: {got})"
+    else return { l with faultsResolved := l.faultsResolved + (if got == "noshim" then 0 else 1), cnt := bump l.cnt ("fired/" ++ got ++ "/commit-" ++ l.lastCommit) }
   | "limit" => return { l with faultArmed := (f.getD 1 "inf") != "inf" }
   | "commit" =>
-    if got == "ok" then return { l with commitsSinceFile := l.commitsSinceFile + 1, commitsSinceView := l.commitsSinceView + 1, viewFresh := false } else return { l with viewFresh := false }
-  | "open" | "reopen" | "close" => return { l with proto := none, lastFile := none, commitsSinceFile := 0 }
+    if got == "ok" then return { l with lastCommit := got, allocs := none, fileFresh := false, commitsSinceFile := l.commitsSinceFile + 1, commitsSinceView := l.commitsSinceView + 1, viewFresh := false } else return { l with lastCommit := got, allocs := none, viewFresh := false }
+  | "open" | "reopen" | "close" =>
+    let l ← l.retireProto
+    return { l with proto := none, lastFile := none, commitsSinceFile := 0 }
   | "usefile" => return { l with viewFresh := false }
   | "begin" =>
     if f.getD 2 "" == "r" && got == "ok" then
       match l.proto with
       | some p => return { l with proto := some { p with sys := p.sys.step .beginR, readerTx := p.readerTx ++ [(f.getD 1 "0").toNat!] } }
+      | none => return l
+    else if f.getD 2 "" == "w" && got == "ok" then
+      -- the writer decides what to release NOW, from the readers registered now
+      -- (overlay dumps and notes describe one write transaction: whatever an earlier one left is stale)
+      let l := { l with pretrees := [], notes := none, allocs := none }
+      match l.proto with
+      | some p => return { l with proto := some { p with wBegin := some p.sys.beginWriter, writerTx := some (f.getD 1 "0").toNat! } }
       | none => return l
     else return l
   | "drop" =>
@@ -166,7 +209,9 @@ def stepLine (l : Loop) (line : String) : IO Loop := do
       let t := (f.getD 1 "0").toNat!
       match p.readerTx.findIdx? (· == t) with
       | some i => return { l with proto := some { p with sys := p.sys.step (.endR i), readerTx := p.readerTx.eraseIdx i } }
-      | none => return l
+      | none =>
+        if p.writerTx == some t then return { l with proto := some { p with wBegin := none, writerTx := none } }
+        else return l
     | none => return l
   | "file" =>
     -- `file => <path>`: decode the real bytes, check well-formedness and accounting, compare contents
@@ -231,22 +276,35 @@ def stepLine (l : Loop) (line : String) : IO Loop := do
     | _, _ => pure ()
     IO.println s!"FILE {l.cur} line={l.lineNo} numPages={rep.numPages} txId={rep.txId} free={rep.free} reach={rep.reach} size={rep.fileSize}"
     return { l with cnt := bump l.cnt "file/ok",
-                    lastFile := some { reach := rep.reachPages, persisted := rep.freePages, numPages := rep.numPages, txId := rep.txId },
+                    fileFresh := true,
+                    lastFile := some { reach := rep.reachPages, persisted := rep.freePages, numPages := rep.numPages, txId := rep.txId, runs := rep.runs },
                     lastView := rep.view, viewFresh := rep.view.isSome, reenc := l.reenc + rep.pagesReencoded, lastTreeReach := rep.treeReach, commitsSinceView := 0 }
   | "flstate" =>
     match l.lastFile with
     | none => return l
     | some fs =>
+      -- the free list can only be attributed to the file it belongs to: without a `file` line after
+      -- the last commit stop tracking (never compare against a stale file)
+      if !l.fileFresh && l.commitsSinceFile > 0 then return { l with proto := none, protoOff := true, commitsSinceFile := 0 } else
       let impl := parseFlState got
       match l.proto with
       | none =>
-        if l.protoOff then return l
-        else return { l with proto := some (protoInit fs impl), commitsSinceFile := 0 }
+        if l.protoOff || !l.fileFresh then return l
+        else
+          -- (re)start of the protocol tracking: the in-memory free list must fit the file it belongs to —
+          -- accounting invariant, and the persisted list is exactly free ∪ pending (this is where a free
+          -- list left out of step with the visible header by a failed commit shows)
+          let p0 := protoInit fs impl
+          if !p0.sys.invB then
+            return ← l.fail "PROTODIFF" s!"op=[{lhs}] detail=[the in-memory free list does not satisfy the accounting invariant against the file: free={impl.free.take 12} pending={impl.pending.take 3} numPages={fs.numPages}]"
+          else if sortNat (impl.free ++ impl.pendingPages).eraseDups != sortNat fs.persisted then
+            return ← l.fail "PROTODIFF" s!"op=[{lhs}] detail=[the free list in memory (free ∪ pending) is not the one the visible header points at: memory-only={(listDiff (impl.free ++ impl.pendingPages) fs.persisted).take 8} file-only={(listDiff fs.persisted (impl.free ++ impl.pendingPages)).take 8}]"
+          else return { l with proto := some p0, commitsSinceFile := 0, protoInits := l.protoInits + 1 }
       | some p =>
         if l.commitsSinceFile == 0 then return l
         else if l.commitsSinceFile == 1 then
-          match protoCommit p fs impl with
-          | .ok p' => return { l with proto := some p', commitsSinceFile := 0, protoCompared := l.protoCompared + 1 }
+          match protoCommit p fs impl l.allocs with
+          | .ok p' => return { l with allocs := none, proto := some p', commitsSinceFile := 0, protoCompared := l.protoCompared + 1 }
           | .error e => return ← l.fail "PROTODIFF" s!"op=[{lhs}] detail=[{e}]"
         else
           -- more than one commit since the last observation: the writer's page sets cannot be
@@ -257,8 +315,7 @@ def stepLine (l : Loop) (line : String) : IO Loop := do
 partial def histLoop (h : IO.FS.Stream) (l : Loop) : IO Loop := do
   let line ← h.getLine
   if line.isEmpty then
-    l.endHist
-    return l
+    return ← l.endHist
   let line := line.trimAscii.toString
   if line.isEmpty then histLoop h { l with lineNo := l.lineNo + 1 }
   else
